@@ -1,7 +1,7 @@
 (* One entry point for the extracted model: [run cmd args] returns the result fields.
    The OCaml driver only splits lines, (un)escapes and converts strings. *)
 From Coq Require Import List Bool NArith ZArith String Ascii.
-From PC Require Import Base.Cmp Base.Result Model.Pep440 Spec.Pep440Spec Spec.Specifier Model.VConstraint Model.Generic Model.Marker Model.Wheel Model.Select Model.PyRange Model.Meta.
+From PC Require Import Base.Cmp Base.Result Model.Pep440 Spec.Pep440Spec Spec.Specifier Model.VConstraint Model.Generic Model.Marker Model.MarkerAlg Model.Wheel Model.Select Model.PyRange Model.Meta.
 Import ListNotations.
 Open Scope string_scope.
 Open Scope N_scope.
@@ -355,6 +355,50 @@ Definition dec_env (s : string) : env :=
     mkEnv pairs (match ex with ["-"%char] => None | [] => Some [] | _ => Some (map str (split_on ","%char ex)) end)
   | _ => mkEnv [] None
   end.
+(* _compact_markers: nested markers are MarkerUnion(groups...) without simplification, the top level calls union() *)
+Fixpoint compact_inner (e : mexpr) : res marker :=
+  match e with
+  | ELeaf name cstr sw => do l <- mk_leaf name cstr sw; Ok (MSingle l)
+  | EAnd l => do ms <- mapR compact_inner l; Ok (mk_multi_marker ms)
+  | EOr l => do ms <- mapR compact_inner l; Ok (mk_union_marker ms)
+  end.
+Definition compact_top (e : mexpr) : res marker :=
+  match e with
+  | EOr l => do ms <- mapR compact_inner l; union_fn FUEL ST0 ms
+  | _ => do m <- compact_inner e; union_fn FUEL ST0 [m]
+  end.
+Definition show_marker_result (r : res marker) (envs : list string) : list string :=
+  match r with
+  | Ok m => "ok" :: marker_str m :: map (fun en => rbool (validate m (dec_env en))) envs
+  | Err e => ["err"; err_str e]
+  end.
+Definition run_marker_alg (cmd : string) (args : list string) : option (list string) :=
+  if seq cmd "mparse" then
+    match args with
+    | e :: envs =>
+      Some match dec_expr 1000 (tokens e) with
+           | Some (ex, []) => show_marker_result (compact_top ex) envs
+           | _ => ["baddecoding"] end
+    | _ => None end
+  else if seq cmd "malg" then
+    match args with
+    | op :: a :: b :: envs =>
+      Some match dec_marker 1000 (tokens a), dec_marker 1000 (tokens b) with
+           | Some (Ok ma, []), Some (Ok mb, []) =>
+             if seq op "intersect" then show_marker_result (m_intersect FUEL ST0 ma mb) envs else
+             if seq op "union" then show_marker_result (m_union FUEL ST0 ma mb) envs else
+             if seq op "cnf" then show_marker_result (cnf FUEL ST0 ma) envs else
+             if seq op "dnf" then show_marker_result (dnf FUEL ST0 ma) envs else
+             if seq op "only_python" then show_marker_result (only FUEL ST0 ["python_version"; "python_full_version"] ma) envs else
+             if seq op "python_constraint" then
+               match python_constraint FUEL ST0 ma with
+               | Ok c => ["ok"; match vc_str c with Ok s => s | Err e => "e:" ++ err_str e end]
+               | Err e => ["err"; err_str e] end
+             else ["badop"]
+           | _, _ => ["baddecoding"] end
+    | _ => None end
+  else None.
+
 Definition run_marker (cmd : string) (args : list string) : option (list string) :=
   if seq cmd "meval" then
     match args with
@@ -570,7 +614,7 @@ Definition run (cmd : string) (args : list string) : list string :=
               | Some r => r
               | None => match run_generic cmd args with
                         | Some r => r
-                        | None => match run_marker cmd args with
+                        | None => match (match run_marker cmd args with Some r => Some r | None => run_marker_alg cmd args end) with
                                   | Some r => r
                                   | None => match run_wheel cmd args with
                                             | Some r => r
